@@ -63,8 +63,11 @@ def sensitivity():
                 ('caught, no failing input found' if 'no-failing-input-found' in log else 'caught with failing input'))
             verdicts.append(f'{cid}: {v}')
         fv = m.get('first_verdict')
-        if fv and fv != m.get('confirmed', {}).get('checks_run'):
-            verdicts.insert(0, 'FIRST RUN: ' + ', '.join('MISSED (exit 0)' if c.endswith(':rc=0') else c for c in fv) + ' → after strengthening')
+        fni = m.get('first_no_failing_input') or []
+        if fv and (fv != m.get('confirmed', {}).get('checks_run') or fni != (m.get('confirmed', {}).get('no_failing_input') or [])):
+            verdicts.insert(0, 'FIRST RUN: ' + ', '.join(
+                'MISSED (exit 0)' if c.endswith(':rc=0') else (c.split(':rc=')[0] + ': caught, no failing input found' if c.split(':rc=')[0] in fni
+                                                            else c.split(':rc=')[0] + ': caught') for c in fv) + ' → after strengthening')
         if m.get('strengthened'):
             verdicts.append(m['strengthened'])
         summ = str(m.get('summary', '')).replace('|', '\\|').replace('\n', ' ')[:300]
@@ -75,7 +78,7 @@ def sensitivity():
     first = collections.Counter(); final = collections.Counter(); n = 0
     for d in sorted(glob.glob(os.path.join(R, 'seeded', '*C*-*'))):
         m = load(os.path.join(d, 'meta.json'), {})
-        prop = m.get('property') or os.path.basename(d).split('-')[0].replace('R2', '')
+        prop = m.get('property') or os.path.basename(d).split('-')[0].replace('R2', '').replace('R3', '')
         cur = {c.split(':rc=')[0]: c.split(':rc=')[1] for c in m.get('confirmed', {}).get('checks_run', [])}
         fv = {c.split(':rc=')[0]: c.split(':rc=')[1] for c in (m.get('first_verdict') or m.get('confirmed', {}).get('checks_run', []))}
         if prop not in cur:
@@ -90,11 +93,15 @@ def sensitivity():
                 log = open(os.path.join(d, f'check_{prop}.log')).read()
             except Exception:
                 log = ''
-            return 'caught, no failing input' if (which == 'final' and 'no-failing-input-found' in log) else 'caught'
+            if which == 'first':
+                if m.get('first_verdict'):
+                    return 'caught, no failing input' if prop in (m.get('first_no_failing_input') or []) else 'caught'
+                return 'caught, no failing input' if 'no-failing-input-found' in log else 'caught'
+            return 'caught, no failing input' if 'no-failing-input-found' in log else 'caught'
         first[cls(fv.get(prop, cur[prop]), 'first')] += 1
         final[cls(cur[prop], 'final')] += 1
-    out.insert(0, f"**Summary.** {n} confirmed seeded changes (two rounds; the second round was asked for subtler triggers and given the first "
-                  f"round's summaries to avoid).  First run against the registered check: {dict(first)}.  After strengthening the checks "
+    out.insert(0, f"**Summary.** {n} confirmed seeded changes (three rounds; every later round was asked for subtler triggers and given the earlier "
+                  f"rounds' summaries to avoid).  First run against the registered check: {dict(first)}.  After strengthening the checks "
                   f"(generators/oracles/theorems extended, never loosened): {dict(final)}.\n")
     out.append('\n**Own mutation catalogue** (`tools/mutations/`, incl. the inverse of every `fix:` commit): ' +
                'which stage caught each is tabulated in the `docs/Cnn.md` of its property; counts per property are in the status table above.')
